@@ -157,18 +157,38 @@ Section Den.
     induction l as [|x l IH]; intro acc; cbn [fold_left map rsum]; [ring|].
     rewrite IH, (den_add R rO rI radd rmul rsub ropp Rth). ring.
   Qed.
-  (* the aligned sum: sum_i den(c_i) * 2^(p_i - m) *)
+  (* the aligned sum: sum_i den(c_i) * 2^(p_i - m), m = the smallest power among the non-zero summands *)
+  Lemma q4_is_zero_eq c : q4_is_zero c = true -> c = q4_zero.
+  Proof.
+    destruct c as [[[a b] c'] d]. unfold q4_is_zero, q4_zero. rewrite !andb_true_iff, !Z.eqb_eq. intros [[[-> ->] ->] ->]. reflexivity.
+  Qed.
+  Lemma sum_min_le l m : sum_min l = Some m -> forall x, In x l -> q4_is_zero (fst x) = false -> m <= snd x.
+  Proof.
+    unfold sum_min. intros Hm x Hx Hz.
+    assert (Hin : In x (filter (fun y => negb (q4_is_zero (fst y))) l)) by (apply filter_In; split; [exact Hx | rewrite Hz; reflexivity]).
+    destruct (filter (fun y => negb (q4_is_zero (fst y))) l) as [|y nz] eqn:Hf; [destruct Hin|].
+    apply (min_list_le _ _ Hm). apply in_map. exact Hin.
+  Qed.
+  Lemma sum_min_in l m : sum_min l = Some m -> In m (map snd l).
+  Proof.
+    unfold sum_min. intro Hm.
+    destruct (filter (fun y => negb (q4_is_zero (fst y))) l) as [|y nz] eqn:Hf; [apply min_list_in; exact Hm|].
+    apply min_list_in in Hm. apply in_map_iff in Hm. destruct Hm as (x & <- & Hx). apply in_map.
+    rewrite <- Hf in Hx. apply filter_In in Hx. apply Hx.
+  Qed.
   Theorem den_sum_exact l s m : esa_sum_exact l = Some (s, m) ->
     den s = rsum (map (fun x => rmul (ofZ (2 ^ (snd x - m))) (den (fst x))) l)
-    /\ (forall x, In x l -> m <= snd x) /\ In m (map snd l).
+    /\ (forall x, In x l -> q4_is_zero (fst x) = false -> m <= snd x) /\ In m (map snd l).
   Proof.
-    unfold esa_sum_exact. destruct (min_list (map snd l)) as [m'|] eqn:Hm; [|discriminate].
+    unfold esa_sum_exact. destruct (sum_min l) as [m'|] eqn:Hm; [|discriminate].
     intros [= <- <-]. split; [|split].
     - rewrite den_fold_add, (den_zero R rO rI radd rmul rsub ropp Rth), map_map.
-      transitivity (rsum (map (fun x => den (align_exact m' x)) l)); [ring|].
-      f_equal. apply map_ext. intro x. unfold align_exact. apply (den_scale R rO rI radd rmul rsub ropp Rth).
-    - intros x Hx. apply (min_list_le _ _ Hm). apply in_map. assumption.
-    - apply min_list_in. assumption.
+      transitivity (rsum (map (fun x => den (align_exactz m' x)) l)); [ring|].
+      f_equal. apply map_ext. intro x. unfold align_exactz. destruct (q4_is_zero (fst x)) eqn:Hz.
+      + rewrite (q4_is_zero_eq _ Hz), (den_zero R rO rI radd rmul rsub ropp Rth). ring.
+      + unfold align_exact. apply (den_scale R rO rI radd rmul rsub ropp Rth).
+    - apply (sum_min_le _ _ Hm).
+    - apply (sum_min_in _ _ Hm).
   Qed.
 
   Theorem den_prod_exact l : den (fst (esa_prod_exact l)) = rprod (map (fun x => den (fst x)) l).
